@@ -92,3 +92,86 @@ func VerifC05_UsageAndHeadroom() {
 	}
 	vReach("end")
 }
+
+// U4: product harness - after a reload the limits in force are exactly those of the latest configuration:
+// manager 1 loads C1, runs an application, loads C2; manager 2 loads C2 only and sees the same usage.
+type vUgmConf struct {
+	rootU1, aU1, aWild, aU2 int64 // memory limits, 0 = not configured
+}
+
+func vUgmConfig(prefix string) (configs.QueueConfig, vUgmConf) {
+	var c vUgmConf
+	pick := func(name string) int64 {
+		if !vBool(prefix + "." + name + ".set") {
+			return 0
+		}
+		return vQtyV[vChoice(prefix+"."+name, len(vQtyV))]
+	}
+	c.rootU1, c.aU1, c.aWild, c.aU2 = pick("root.u1"), pick("a.u1"), pick("a.wild"), pick("a.u2")
+	lim := func(user string, v int64) configs.Limit {
+		s := "10"
+		if v == 20 {
+			s = "20"
+		}
+		if v == 50 {
+			s = "50"
+		}
+		return configs.Limit{Limit: "l", Users: []string{user}, MaxResources: map[string]string{"memory": s}}
+	}
+	a := configs.QueueConfig{Name: "a"}
+	if c.aU1 != 0 {
+		a.Limits = append(a.Limits, lim("u1", c.aU1))
+	}
+	if c.aU2 != 0 {
+		a.Limits = append(a.Limits, lim("u2", c.aU2))
+	}
+	if c.aWild != 0 {
+		a.Limits = append(a.Limits, lim("*", c.aWild)) // the wildcard entry comes last
+	}
+	root := configs.QueueConfig{Name: "root", Parent: true, Queues: []configs.QueueConfig{a}}
+	if c.rootU1 != 0 {
+		root.Limits = append(root.Limits, lim("u1", c.rootU1))
+	}
+	return root, c
+}
+
+func vHeadMem(h *resources.Resource) int64 {
+	if h == nil {
+		return -1 // unlimited
+	}
+	v, ok := h.Resources["memory"]
+	if !ok {
+		return -1
+	}
+	return int64(v)
+}
+
+func VerifC05_ReloadEqualsFreshConfig() {
+	vPanics(false)
+	vUnwind(40)
+	conf1, _ := vUgmConfig("c1")
+	conf2, _ := vUgmConfig("c2")
+	use := vRange("use", 1, 10)
+	// manager 1: C1, usage, then C2
+	m = newManager()
+	e1 := m.UpdateConfig(conf1, "root")
+	// the application runs across the reload, or starts after it (the trackers are idle during the reload)
+	before := vBool("runs.before.reload")
+	vSplit("runs.before.reload")
+	if before {
+		m.IncreaseTrackedResource("root.a", "app-1", vMem(use), vUser)
+	}
+	e2 := m.UpdateConfig(conf2, "root")
+	if !before {
+		m.IncreaseTrackedResource("root.a", "app-1", vMem(use), vUser)
+	}
+	h1 := vHeadMem(m.Headroom("root.a", "app-1", vUser))
+	// manager 2: C2 only, same usage
+	m = newManager()
+	e3 := m.UpdateConfig(conf2, "root")
+	m.IncreaseTrackedResource("root.a", "app-1", vMem(use), vUser)
+	h2 := vHeadMem(m.Headroom("root.a", "app-1", vUser))
+	vAssert(e1 == nil && e2 == nil && e3 == nil, "world: configurations accepted")
+	vAssert(h1 == h2, "U4 after a reload the user's headroom is the one of the latest configuration (same as a manager that only ever saw it)")
+	vReach("end")
+}
